@@ -196,7 +196,7 @@ def main():
         ms = mutants(f'{REPO_SRC}/kyupy/{fname}')
         outp = f'{VERIF}/mutation/{fname}.jsonl'
         rs = [json.loads(l) for l in open(outp)]
-        todo = [r for r in rs if r['verdict'] == 'survived' and not all(p_ in r['checks'] for p_ in props)]
+        todo = [r for r in rs if r['verdict'] == 'survived' and ('--force' in args or not all(p_ in r['checks'] for p_ in props))]
         print(f'{fname}: retesting {len(todo)} survivors with {props}', flush=True)
         saved = MAP[fname]
         MAP[fname] = props
